@@ -722,11 +722,18 @@ def C18h.sigOwn (w : Watcher) (pj : JVal) : Option Nat :=
   | .int i => if i ≥ 0 && w.pids.contains i.toNat then some i.toNat else none
   | _ => none
 
-/-- `for child in children: os.kill(child, signum)` -/
-def C18h.sigKillAll (sig : Nat) (l : List Nat) : M PUnit :=
-  forIn l PUnit.unit fun c _ => do
-    let _ ← kKill c sig
-    pure (ForInStep.yield PUnit.unit)
+/-- one round of `for child in children: os.kill(child, signum)`: a child that is gone
+    (`NoSuchProcess`) sets the error, and once the error is set nothing more is sent -/
+def C18h.sigKillStep (sig : Nat) (c : Nat) (err : Option Exc) : M (ForInStep (Option Exc)) :=
+  if err.isNone = true then do
+    let ok ← kKill c sig
+    if (!ok) = true then pure (ForInStep.yield (some Exc.noSuchProcess)) else pure (ForInStep.yield err)
+  else pure (ForInStep.yield err)
+
+/-- `Process.send_signal_children`: `for child in children: os.kill(child, signum)`, ended by the first
+    child that has vanished since the lookup; returns the error flag -/
+def C18h.sigKillAll (sig : Nat) (l : List Nat) (err : Option Exc) : M (Option Exc) :=
+  forIn l err (C18h.sigKillStep sig)
 
 /-- `childpid` given: `process.send_signal_child(childpid, signum)` -/
 def C18h.sigChildpidMode (w : Watcher) (sig : Nat) (childpid pj : JVal) (err : Option Exc) : M (ForInStep (Option Exc)) :=
@@ -748,8 +755,8 @@ def C18h.sigChildrenMode (w : Watcher) (sig : Nat) (rc : Bool) (pj : JVal) (err 
     match cs with
     | none => pure (ForInStep.yield (some Exc.noSuchProcess))
     | some l => do
-      C18h.sigKillAll sig l
-      pure (ForInStep.yield err)
+      let e ← C18h.sigKillAll sig l err
+      pure (ForInStep.yield e)
 
 def C18h.sigRecTail (w : Watcher) (sig : Nat) (recursive : Bool) (pj : JVal) (err : Option Exc) : M (ForInStep (Option Exc)) :=
   if (err.isNone && recursive) = true then C18h.sigChildrenMode w sig true pj err else pure (ForInStep.yield err)
@@ -834,12 +841,15 @@ namespace C18h
 section
 variable {k0 : Kernel} {u : Nat} {own : List Nat} {sig : Nat}
 
-theorem conf_sigKillAll (l : List Nat) (h : ∀ c ∈ l, Confined k0 own sig c sig) :
-    Conf k0 u own sig (fun _ => True) (sigKillAll sig l) := by
+theorem conf_sigKillAll (l : List Nat) (err : Option Exc) (h : ∀ c ∈ l, Confined k0 own sig c sig) :
+    Conf k0 u own sig (fun _ => True) (sigKillAll sig l err) := by
   unfold sigKillAll
   apply Conf.forIn
-  intro c hc _
-  exact Conf.bind (conf_kKill c sig "" (h c hc)) (fun _ _ => Conf.pure _ trivial)
+  intro c hc e
+  unfold sigKillStep
+  refine Conf.ite ?_ (Conf.pure _ trivial)
+  exact Conf.bind (conf_kKill c sig "" (h c hc))
+    (fun _ _ => Conf.ite (Conf.pure _ trivial) (Conf.pure _ trivial))
 
 theorem conf_sigChildpidMode (w : Watcher) (hw : ∀ x ∈ w.pids, x ∈ own) (childpid pj : JVal) (err : Option Exc) :
     Conf k0 u own sig (fun _ => True) (sigChildpidMode w sig childpid pj err) := by
@@ -866,7 +876,7 @@ theorem conf_sigChildrenMode (w : Watcher) (hw : ∀ x ∈ w.pids, x ∈ own) (r
     cases cs with
     | none => exact Conf.pure _ trivial
     | some l =>
-      exact Conf.bind (conf_sigKillAll l (fun c hc => ⟨rfl, Or.inr ⟨p, hp, hcs l rfl c hc⟩⟩))
+      exact Conf.bind (conf_sigKillAll l err (fun c hc => ⟨rfl, Or.inr ⟨p, hp, hcs l rfl c hc⟩⟩))
         (fun _ _ => Conf.pure _ trivial)
 
 theorem conf_sigRecTail (w : Watcher) (hw : ∀ x ∈ w.pids, x ∈ own) (rc : Bool) (pj : JVal) (err : Option Exc) :
@@ -1183,31 +1193,201 @@ theorem C18_signal_own_pid_childpid (props : JVal) (s : State) (u p : Nat) (c : 
   obtain ⟨ok, s1⟩ := r
   cases ok <;> rfl
 
-/-- **`children` mode**: one `children()` query on the listed worker, then `kill(child, signum)` for
-    exactly the pids that query returned (nothing if the worker is gone) -/
+/-! #### the loop over the children: ended by the first child that has vanished -/
+
+/-- the state after `kill(c, sig)` for the pids of `l`, in order -/
+def C18h.killSeq (sig : Nat) (l : List Nat) (s : State) : State :=
+  l.foldl (fun s c => (kKill c sig "" s).2) s
+
+/-- every `kill` of the sequence finds its target (no `NoSuchProcess`) -/
+def C18h.AllAlive (sig : Nat) : List Nat → State → Prop
+  | [], _ => True
+  | c :: l, s => (kKill c sig "" s).1 = true ∧ C18h.AllAlive sig l (kKill c sig "" s).2
+
+theorem C18h.sigKillAll_some (sig : Nat) (l : List Nat) (e : Exc) (s : State) :
+    C18h.sigKillAll sig l (some e) s = (some e, s) := by
+  unfold C18h.sigKillAll
+  induction l with
+  | nil => rfl
+  | cons c l ih =>
+    rw [List.forIn_cons]
+    simp only [bind]
+    have hb : C18h.sigKillStep sig c (some e) s = (ForInStep.yield (some e), s) := by
+      unfold C18h.sigKillStep
+      erw [if_neg (by simp)]
+      rfl
+    rw [hb]
+    exact ih
+
+theorem C18h.sigKillAll_cons (sig c : Nat) (l : List Nat) (s : State) :
+    C18h.sigKillAll sig (c :: l) none s =
+      if (kKill c sig "" s).1 = true then C18h.sigKillAll sig l none (kKill c sig "" s).2
+      else (some Exc.noSuchProcess, (kKill c sig "" s).2) := by
+  have hstep : C18h.sigKillStep sig c none s =
+      (ForInStep.yield (if (kKill c sig "" s).1 = true then none else some Exc.noSuchProcess), (kKill c sig "" s).2) := by
+    unfold C18h.sigKillStep
+    erw [if_pos rfl]
+    simp only [bind]
+    cases hk : (kKill c sig "" s).1
+    · erw [if_pos (by rfl)]; rfl
+    · erw [if_neg (by simp)]; rfl
+  unfold C18h.sigKillAll
+  rw [List.forIn_cons]
+  simp only [bind]
+  rw [hstep]
+  simp only
+  cases hk : (kKill c sig "" s).1
+  · simp only [Bool.false_eq_true, if_false]
+    exact C18h.sigKillAll_some sig l _ _
+  · simp only [if_true]
+
+/-- all children alive: every one of them is signalled, no error -/
+theorem C18h.sigKillAll_all (sig : Nat) (l : List Nat) (s : State) (h : C18h.AllAlive sig l s) :
+    C18h.sigKillAll sig l none s = (none, C18h.killSeq sig l s) := by
+  induction l generalizing s with
+  | nil => rfl
+  | cons c l ih =>
+    rw [C18h.sigKillAll_cons, if_pos h.1, ih _ h.2]
+    rfl
+
+/-- the loop stops at the first vanished child: the children before it (`pre`, all found) and the
+    vanished one (`c`) have been `kill`ed, the ones after it (`post`) are not touched — the final
+    state is the state right after `kill(c)` — and the error is `NoSuchProcess` -/
+theorem C18h.sigKillAll_stops (sig : Nat) (pre : List Nat) (c : Nat) (post : List Nat) (s : State)
+    (halive : C18h.AllAlive sig pre s) (hgone : (kKill c sig "" (C18h.killSeq sig pre s)).1 = false) :
+    C18h.sigKillAll sig (pre ++ c :: post) none s =
+      (some Exc.noSuchProcess, (kKill c sig "" (C18h.killSeq sig pre s)).2) := by
+  induction pre generalizing s with
+  | nil =>
+    have hg : (kKill c sig "" s).1 = false := hgone
+    rw [List.nil_append, C18h.sigKillAll_cons, if_neg (by rw [hg]; simp)]
+    rfl
+  | cons x pre ih =>
+    rw [List.cons_append, C18h.sigKillAll_cons, if_pos halive.1]
+    exact ih _ halive.2 hgone
+
+/-- **exactly a prefix**: the loop over the list `l` that `children()` returned either signals all of
+    `l` (every child found, no error), or signals `pre ++ [c]` for a decomposition `l = pre ++ c :: post`
+    where `c` is the first child that is gone, and answers `NoSuchProcess` -/
+theorem C18h.sigKillAll_prefix (sig : Nat) (l : List Nat) (s : State) :
+    (C18h.AllAlive sig l s ∧ C18h.sigKillAll sig l none s = (none, C18h.killSeq sig l s)) ∨
+    (∃ pre c post, l = pre ++ c :: post ∧ C18h.AllAlive sig pre s ∧
+      (kKill c sig "" (C18h.killSeq sig pre s)).1 = false ∧
+      C18h.sigKillAll sig l none s = (some Exc.noSuchProcess, C18h.killSeq sig (pre ++ [c]) s)) := by
+  induction l generalizing s with
+  | nil => exact Or.inl ⟨trivial, rfl⟩
+  | cons x l ih =>
+    cases hk : (kKill x sig "" s).1
+    · refine Or.inr ⟨[], x, l, rfl, trivial, hk, ?_⟩
+      rw [C18h.sigKillAll_cons, if_neg (by rw [hk]; simp)]
+      rfl
+    · rcases ih (kKill x sig "" s).2 with ⟨ha, he⟩ | ⟨pre, c, post, hl, ha, hg, he⟩
+      · refine Or.inl ⟨⟨hk, ha⟩, ?_⟩
+        rw [C18h.sigKillAll_cons, if_pos hk, he]
+        rfl
+      · refine Or.inr ⟨x :: pre, c, post, by rw [hl]; rfl, ⟨hk, ha⟩, hg, ?_⟩
+        rw [C18h.sigKillAll_cons, if_pos hk, he]
+        rfl
+
+/-- `children` mode on a listed worker, as an equation: one `children()` query, then the loop -/
+theorem C18h.signal_children_eq (props : JVal) (s : State) (u p : Nat)
+    (hu : (getWatcherCmd ((props.get? "name").getD .null) s).1 = .ok u)
+    (hpid : props.get? "pid" = some (.int (p : Nat))) (hown : p ∈ (getW u s).1.pids)
+    (hcp : ((props.get? "childpid").getD .null).truthy = false)
+    (hch : ((props.get? "children").map JVal.truthy).getD false = true) :
+    execSignal props s =
+      match (kChildren p false s).1 with
+      | none => (.error Exc.noSuchProcess, (kChildren p false s).2)
+      | some l =>
+        ((match (C18h.sigKillAll (((props.get? "signum").bind toSignumJ).getD 0) l none (kChildren p false s).2).1 with
+          | some e => .error e
+          | none => .ok (.value "-")),
+         (C18h.sigKillAll (((props.get? "signum").bind toSignumJ).getD 0) l none (kChildren p false s).2).2) := by
+  rw [C18h.execSignal_eq, C18h.getWatcherCmd_state, hu, hpid]
+  simp only
+  rw [C18h.signalLoop_single]
+  have hone : C18h.signalOne u (getW u s).1 (((props.get? "signum").bind toSignumJ).getD 0)
+      ((props.get? "childpid").getD .null) (((props.get? "children").map JVal.truthy).getD false)
+      (((props.get? "recursive").map JVal.truthy).getD false) (.int (p : Nat)) none s =
+      match (kChildren p false s).1 with
+      | none => (ForInStep.yield (some Exc.noSuchProcess), (kChildren p false s).2)
+      | some l =>
+        (ForInStep.yield (C18h.sigKillAll (((props.get? "signum").bind toSignumJ).getD 0) l none (kChildren p false s).2).1,
+         (C18h.sigKillAll (((props.get? "signum").bind toSignumJ).getD 0) l none (kChildren p false s).2).2) := by
+    unfold C18h.signalOne
+    erw [if_pos rfl]
+    erw [if_neg (by simp [hcp])]
+    erw [if_pos hch]
+    unfold C18h.sigChildrenMode
+    rw [C18h.sigOwn_own _ p hown]
+    simp only [bind]
+    generalize kChildren p false s = r
+    obtain ⟨cs, s1⟩ := r
+    cases cs <;> rfl
+  rw [hone]
+  cases (kChildren p false s).1 with
+  | none => rfl
+  | some l =>
+    simp only
+    cases (C18h.sigKillAll (((props.get? "signum").bind toSignumJ).getD 0) l none (kChildren p false s).2).1 <;> rfl
+
+/-- **`children` mode**: one `children()` query on the listed worker (if the worker is gone:
+    `NoSuchProcess`, no signal), then `kill(child, signum)` for a *prefix* of the list `l` that query
+    returned, in order: either all of `l` — every child was found, reply ok — or `pre ++ [c]` where
+    `l = pre ++ c :: post`, the children of `pre` were found and `c` is the first one that has vanished
+    since the lookup (`kill` reports `gone`): the children after it (`post`) get nothing and the
+    reply is the error `NoSuchProcess`. -/
 theorem C18_signal_own_pid_children (props : JVal) (s : State) (u p : Nat)
     (hu : (getWatcherCmd ((props.get? "name").getD .null) s).1 = .ok u)
     (hpid : props.get? "pid" = some (.int (p : Nat))) (hown : p ∈ (getW u s).1.pids)
     (hcp : ((props.get? "childpid").getD .null).truthy = false)
     (hch : ((props.get? "children").map JVal.truthy).getD false = true) :
-    (execSignal props s).2 =
-      match (kChildren p false s).1 with
-      | none => (kChildren p false s).2
-      | some l => (C18h.sigKillAll (((props.get? "signum").bind toSignumJ).getD 0) l (kChildren p false s).2).2 := by
-  rw [C18h.execSignal_eq, C18h.getWatcherCmd_state, hu, hpid]
-  simp only
-  rw [C18h.signalLoop_single]
-  simp only
-  unfold C18h.signalOne
-  erw [if_pos rfl]
-  erw [if_neg (by simp [hcp])]
-  erw [if_pos hch]
-  unfold C18h.sigChildrenMode
-  rw [C18h.sigOwn_own _ p hown]
-  simp only [bind]
-  generalize kChildren p false s = r
-  obtain ⟨cs, s1⟩ := r
-  cases cs <;> rfl
+    let sig := ((props.get? "signum").bind toSignumJ).getD 0
+    let s1 := (kChildren p false s).2
+    match (kChildren p false s).1 with
+    | none => execSignal props s = (.error Exc.noSuchProcess, s1)
+    | some l =>
+      (C18h.AllAlive sig l s1 ∧ execSignal props s = (.ok (.value "-"), C18h.killSeq sig l s1)) ∨
+      (∃ pre c post, l = pre ++ c :: post ∧ C18h.AllAlive sig pre s1 ∧
+        (kKill c sig "" (C18h.killSeq sig pre s1)).1 = false ∧
+        execSignal props s = (.error Exc.noSuchProcess, C18h.killSeq sig (pre ++ [c]) s1)) := by
+  intro sig s1
+  have h := C18h.signal_children_eq props s u p hu hpid hown hcp hch
+  cases hc : (kChildren p false s).1 with
+  | none => rw [hc] at h; exact h
+  | some l =>
+    rw [hc] at h
+    simp only at h ⊢
+    rcases C18h.sigKillAll_prefix sig l s1 with ⟨ha, he⟩ | ⟨pre, c, post, hl, ha, hg, he⟩
+    · exact Or.inl ⟨ha, by rw [h]; rw [he]⟩
+    · exact Or.inr ⟨pre, c, post, hl, ha, hg, by rw [h]; rw [he]⟩
+
+/-- **the loop over the children stops at a vanished child**: in `children` mode on a listed worker,
+    if `children()` returned `pre ++ c :: post`, the children of `pre` were all found and `kill(c)`
+    reports that `c` is gone (it vanished since the lookup: psutil raises `NoSuchProcess`), then the
+    request ends right there: the final state is the state immediately after that `kill(c)` — so no
+    further `Obs.sig` is appended, the children in `post` get no signal — and the reply is the error
+    `NoSuchProcess` (errno 5).  (The `recursive` tail runs the same loop, `C18h.sigKillAll_stops`.) -/
+theorem C18_signal_children_stops_at_vanished_child (props : JVal) (s : State) (u p : Nat)
+    (pre : List Nat) (c : Nat) (post : List Nat)
+    (hu : (getWatcherCmd ((props.get? "name").getD .null) s).1 = .ok u)
+    (hpid : props.get? "pid" = some (.int (p : Nat))) (hown : p ∈ (getW u s).1.pids)
+    (hcp : ((props.get? "childpid").getD .null).truthy = false)
+    (hch : ((props.get? "children").map JVal.truthy).getD false = true)
+    (hl : (kChildren p false s).1 = some (pre ++ c :: post))
+    (halive : C18h.AllAlive (((props.get? "signum").bind toSignumJ).getD 0) pre (kChildren p false s).2)
+    (hgone : (kKill c (((props.get? "signum").bind toSignumJ).getD 0) ""
+      (C18h.killSeq (((props.get? "signum").bind toSignumJ).getD 0) pre (kChildren p false s).2)).1 = false) :
+    let sig := ((props.get? "signum").bind toSignumJ).getD 0
+    let sGone := (kKill c sig "" (C18h.killSeq sig pre (kChildren p false s).2)).2
+    execSignal props s = (.error Exc.noSuchProcess, sGone) ∧ NoSig sGone (execSignal props s).2 := by
+  intro sig sGone
+  have h := C18h.signal_children_eq props s u p hu hpid hown hcp hch
+  rw [hl] at h
+  simp only at h
+  rw [C18h.sigKillAll_stops sig pre c post _ halive hgone] at h
+  have h2 : execSignal props s = (.error Exc.noSuchProcess, sGone) := h
+  exact ⟨h2, by rw [h2]; exact .refl⟩
 
 /-! ### `Kill.execute` -/
 
@@ -1492,5 +1672,21 @@ example : pidOfProps (.obj [("name", .str "a"), ("pid", .int 0)]) = some 0 := by
 example : ((JVal.obj [("name", .str "a"), ("signum", .int 99)]).get? "signum").bind toSignumJ = none ∧
     ((JVal.obj [("name", .str "a")]).get? "signum").bind toSignumJ = none ∧
     toSignumJ (.int 0) = none ∧ toSignumJ (.bool true) = none ∧ toSignumJ (.int 15) = some 15 := by decide +kernel
+
+-- C18_signal_children_stops_at_vanished_child: worker 100 with children 101, 102, 103; child 102 dies
+-- just before the third kernel call of the request (= the `kill` addressed to it): 101 is signalled,
+-- 102 is reported gone, 103 gets nothing, the reply is NoSuchProcess
+def c18t0 : State := run (initState [{ name := "a" }] [{ kids := 3 }] 0) [.start, .wake, .wake]
+def c18t : State := { c18t0 with k := { c18t0.k with calls := 0, armed := [(3, 102, 9)] } }
+def c18treq : JVal := .obj [("name", .str "a"), ("signum", .int 12), ("pid", .int 100), ("children", .bool true)]
+example : (kChildren 100 false c18t).1 = some ([101] ++ 102 :: [103]) := by decide +kernel
+example := C18_signal_children_stops_at_vanished_child c18treq c18t 1 100 [101] 102 [103]
+  (by decide +kernel) (by rfl) (by decide +kernel) (by decide +kernel) (by decide +kernel) (by decide +kernel)
+  ⟨by decide +kernel, trivial⟩ (by decide +kernel)
+example : (((C18h.newLog c18t (execSignal c18treq c18t).2).filter C18h.isSig).map showObs) =
+    ["o sig 101 12 r", "o sig 102 12 g"] := by decide +kernel
+-- … and without the fault all three children are signalled (`C18h.sigKillAll_all`)
+example : (((C18h.newLog c18t0 (execSignal c18treq c18t0).2).filter C18h.isSig).map showObs) =
+    ["o sig 101 12 r", "o sig 102 12 r", "o sig 103 12 r"] := by decide +kernel
 
 end Circus.Core
